@@ -27,6 +27,74 @@ def run(chk, F):
     chk.guard("errors-reported", "load_defs", lambda: L.errors_reported(chk, F))
     chk.guard("temporaries-cleared", "load_defs", lambda: shared_rules.temporaries_cleared(chk, F))
     chk.guard("definitions-only-for-loaded-units", "load_defs", lambda: L.definitions_only_for_loaded(chk, F))
+    chk.guard("syntax-problems-returned", "gnu_units::parse", lambda: syntax_problems(chk, F))
+
+
+def syntax_problems(chk, F):
+    """`reports every problem as an error message`: a problem with the text of a definitions file must end up in what
+    Context::load returns, not on a terminal.  (a) nothing reachable from the definitions parser or the loader prints
+    (std::io::_print/_eprint): a printed problem is invisible to every caller of the library (web, IRC, sandbox child);
+    (b) in gnu_units::parse every catch-all arm of a match over the next token (the arm taken by text that fits no rule) calls
+    the recorder - a function of the module that pushes a DefEntry holding Def::Error, which load_defs turns into an error
+    line - or only skips a token inside a recovery loop."""
+    import cg
+    import hirutil as H
+    from facts import hir_walk
+    CORE = "rink_core"
+    G = cg.get(F)
+    roots = [f for f in F.by_crate[CORE] if f.path in ("loader::gnu_units::parse", "loader::gnu_units::parse_str", "loader::gnu_units::parse_expr")
+             or f.path.startswith("loader::load::load_defs") or f.path == "loader::context::Context::load"]
+    if len(roots) < 3:
+        raise AnchorLost("definitions parser / loader entry points not found (%d)" % len(roots))
+    reach = G.reachable(roots)
+    hits = []
+    for fid in reach:
+        fn = F.fns[fid]
+        if fn.crate != CORE:
+            continue
+        for bb, t in fn.calls():
+            if "callee" in t and t["callee"]["path"].endswith(("io::stdio::_print", "io::stdio::_eprint")):
+                hits.append((fn, bb))
+    for fn, bb in hits:
+        chk.finding("syntax-problems-returned", "rink_core::" + fn.path, "prints-a-problem", fn.where(bb),
+                    "a problem found while reading definitions is printed with print!/eprintln! instead of being returned: Context::load "
+                    "answers Ok(()) for text such as `!bogus directive` or `water { density 5 m }`", path=G.path_to(reach, fn.id))
+    if not hits:
+        chk.ok("syntax-problems-returned", "rink_core::loader", "nothing-printed", "", "no print!/eprintln! is reachable from the definitions parser and loader (%d functions)" % len(reach))
+    # (b) the recorder and the catch-all arms
+    recorders = []
+    for f in F.by_crate[CORE]:
+        if f.path.startswith("loader::gnu_units::") and "{closure" not in f.path:
+            for i, j, st in f.stmts():
+                rv = st.get("rv", {})
+                if rv.get("k") == "agg" and str(rv.get("adt", "")).endswith("Def") and rv.get("variant") == "Error":
+                    recorders.append(f)
+                    break
+    parse = F.find(CORE, "loader::gnu_units::parse")
+    rec_names = {r.path for r in recorders if r.id != parse.id}
+    h = F.hir_of(parse)
+    n = 0
+    for m in hir_walk(h["body"]):
+        if m.get("k") != "Match" or m.get("src") != "Normal":
+            continue
+        sc = H.expr_str(m["scrut"], 200)
+        if "iter.next()" not in sc and "iter.peek()" not in sc:
+            continue
+        for a in m["arms"]:
+            pk = a["pat"].get("pk")
+            if not (pk == "wild" or (pk == "bind" and not a["pat"].get("sub"))):
+                continue
+            n += 1
+            body = a["body"]
+            calls = [c for c in hir_walk(body) if c.get("k") == "Call" and c["f"].get("k") == "Path" and ("loader::" + str(c["f"]["r"].get("path", "")).split("loader::")[-1]) in rec_names]
+            direct = [x for x in hir_walk(body) if x.get("k") == "Struct" and "Def::Error" in H.expr_str(x, 60)]
+            skip_only = H.expr_str(body, 40).replace(" ", "") in ("{iter.next()}", "{iter.next();}", "iter.next()")
+            chk.decide(bool(calls) or bool(direct) or skip_only, "syntax-problems-returned", "rink_core::loader::gnu_units::parse",
+                       "catch-all-arm:%s#%d" % (H.pat_str(a["pat"]), n), "%s:%d" % (parse.file, a["line"]),
+                       "records the problem" if not skip_only else "skips one token inside a recovery loop",
+                       "the arm for a token that fits no rule neither records the problem nor skips a token in a recovery loop: the text is dropped silently")
+    if n < 8:
+        raise AnchorLost("gnu_units::parse: only %d catch-all token arms found (expected >= 8)" % n)
 
 
 def lexer_not_recursive(chk, F):
